@@ -124,8 +124,15 @@ def run_rules(pid, rules, program, tier):
     """Run the rule functions; returns (results, ctx)."""
     ctx = Ctx(program, tier)
     results = []
+    ctx.rule_errors = []
     for fn in rules:
-        res = fn(ctx)
+        try:
+            res = fn(ctx)
+        except AnalysisError as e:
+            # one rule that cannot be carried out must not hide what the others find: the error is kept and
+            # decides the outcome (exit 2) only if no rule reports a new violation (see check.run_property)
+            ctx.rule_errors.append(f"{getattr(fn, '__name__', 'rule')}: {e}")
+            continue
         if res is None:
             continue
         if isinstance(res, RuleResult):
@@ -134,7 +141,10 @@ def run_rules(pid, rules, program, tier):
             # the instance floor guards against rules that silently match nothing;
             # when the rule already reports a violation that is the verdict
             if not r.violations:
-                r.check_min()
+                try:
+                    r.check_min()
+                except AnalysisError as e:
+                    ctx.rule_errors.append(str(e))
             results.append(r)
     return results, ctx
 
